@@ -206,7 +206,7 @@ def fftPrime [Atan2 α] (lit : Lits α) (n : Nat) (x : Vec α) : Vec α :=
 inductive Plan where
   | leaf (n : Nat)
   | node (P Q : Nat) (p q : Plan)
-deriving Repr
+deriving Repr, DecidableEq
 
 def Plan.size : Plan → Nat
   | .leaf n => n
